@@ -34,18 +34,39 @@ CLAIMS = {
         "text": "FlexiLogger::log is decided for concrete brace lists over {A, B, _Default, unknown} with symbolic writer ceilings, specification, level and module path: one call per occurrence to each named registered writer, none to others, default channel iff _Default and the spec enables the module path, one report per unknown name, one timestamp for all receivers. MultiWriter::write duplication is decided for all 7x7 Duplicate settings x 5 levels before and after run-time adaptation; FileLogWriter::write for all ceilings x levels.",
         "note": _N + " SyslogWriter is outside (feature not encoded).",
     },
+    "C01": {
+        "text": "One step of the rotation state machine from an arbitrary Active state (Numbers naming, Size criterion, symbolic index < 1000, sizes over all u64, force flag) is decided in two halves that compose along the crate's call structure: mount_next_linewriter_if_necessary rotates iff forced or size > N with effects rename -> open -> old writer released -> cleanup, index+1, size 0; write_buffer asks the rotation half once, hands the record exactly once to the mounted writer and then accounts its length. index_for_rcurrent is decided against rename outcomes. Model checking of the compiled code is the right level because the step is a small arithmetic/state machine whose interesting inputs are boundary values.",
+        "note": _N + " Leaves (open_log_file, directory listing) are replaced by contract stubs; file contents are not modelled; timestamp namings, Age inside the step and buffered modes are outside (DESIGN.md 3.2, 4).",
+    },
+    "C06": {
+        "text": "Leaf kernels of the restart logic are decided: index_for_rcurrent (next index = remembered one or highest existing + 1, rename to exactly that number, ENOENT is not an error), get_highest_index on listings by contract (plain, compressed, name parts containing '_r', short infixes, several files), RollState::new seeding with the appended file's size for all u64.",
+        "note": _N + " Timestamp namings (latest_timestamp_file, collision_free_infix_for_rotated_file), initialize_with_rotation as a whole and multi-run histories are outside.",
+    },
+    "C14": {
+        "text": "FileSpec::filter_files is executed symbolically on menus of family members and near misses (other suffix, no suffix, longer basename sharing the prefix, missing infix, current-file infix, fragment inside a longer name, multi-byte separator position, missing separator) for three spec shapes and decided against the documented pattern; one open finding (extra dotted part after the infix) is reported as KNOWN-FINDING.",
+        "note": _N + " File names are concrete menus (symbolic names did not terminate): only the listed shapes are covered. Consumers (cleanup, numbering) are decided on listings by contract.",
+    },
+    "C16": {
+        "text": "FileSpec::as_pathbuf / fixed_name_part are decided equal to the documented concatenation [basename][_discriminant][_infix][.suffix] for all 2^4 present/absent combinations (incl. empty infix); the listing filter is decided on menus for specs with basename, discriminant only and no name parts.",
+        "note": _N + " Start-time part, FileSpec::try_from(path), existing_log_files selectors and the symlink clause are outside.",
+    },
+    "C19": {
+        "text": "Concrete fault points with symbolic state: a failing rename / open / cleanup inside the rotation step returns Err before anything later happens, leaves the old writer mounted and index/size consistent (nothing written is lost, rotation is retried); index_for_rcurrent returns non-NotFound rename errors; a failing remove_file ends the cleanup with Err after the earlier removals.",
+        "note": _N + " Faults are concrete per instance (a symbolic fault selector did not terminate); write failures inside write_buffer, the reporting line of write_buffer and multi-step recovery are outside.",
+    },
     "C20": {
         "text": "StateHandle::write (sync) is decided to hand the state exactly one buffer per record = format output (symbolic bytes) + exactly one configured line ending (LF / CRLF), and to leave the formatting buffer empty for the next record.",
         "note": _N + " JSON / coloured / timestamp-bearing formats, key-values and async mode are outside.",
     },
 }
-_PENDING = "check not built yet in this revision of /verif (planned, see DESIGN.md section 4)"
+_REACH = "needs the real BufWriter<File>/OpenOptions/File code over a model of file contents and State as a whole; every attempt ran out of the 12 GB / 15 min budget (virtual Write dispatch to every implementation, unfoldable enum discriminants, recursive error drop glue - DESIGN.md 2 and 5); the mechanisms that could be decided are counted under C01/C19/C20 only"
 NOT_APPLICABLE = {
     "C03": "thread interleavings of N OS threads, crossbeam channel/queue and stdout locks cannot be encoded by Kani/CBMC (no concurrency support); a sequentialised harness would assume the atomicity it is meant to show",
+    "C04": "flush/shutdown/drop leave nothing behind: " + _REACH + "; async and flusher threads additionally need concurrency",
+    "C11": "crash points: " + _REACH,
+    "C15": "write-mode independence: " + _REACH + "; the async half runs in a closure on a spawned thread",
+    "C17": "LogSpecification::parse / Display run std split/trim/to_lowercase/format! machinery: with symbolic strings CBMC did not terminate, with concrete strings the solver decides nothing (enumeration of concrete runs is not this technique); TOML form needs serde/toml",
+    "C18": "reopen_output / reset_flw: " + _REACH,
 }
-for _i in range(1, 21):
-    _k = f"C{_i:02d}"
-    if _k not in CLAIMS and _k not in NOT_APPLICABLE:
-        NOT_APPLICABLE[_k] = _PENDING
 for _k in CLAIMS:
     CLAIMS[_k].setdefault("technique", _T)
